@@ -70,8 +70,11 @@ def install(reg):
             ck.f["sampler_cls"] = Str(s.cls)
             root.f["members"].d["checkpoint"] = ck
             p.event("checkpoint.write", key, ck)
-        out = Obj("Samples", {"x": base_arr(fresh("post_x"), "row"), "parameters": NONE, "xp": s.f.get("xp", NONE), "log_evidence": NONE, "log_evidence_error": NONE,
+        out = Obj("Samples", {"x": base_arr(fresh("post_x"), "row"), "log_likelihood": base_arr(fresh("post_ll"), "real"), "log_prior": base_arr(fresh("post_lp"), "real"),
+                              "log_q": NONE, "parameters": NONE, "xp": s.f.get("xp", NONE), "dtype": s.f.get("dtype", NONE), "device": NONE,
+                              "log_evidence": R(z3.Real(fresh("logZ_out"))), "log_evidence_error": R(z3.Real(fresh("logZerr_out"))),
                               "__len": IV(z3.Int(fresh("n_out")))})
+        p.ghost["sampler_result"] = out
         return out
 
     reg.sampler_sample = sampler_sample
@@ -221,6 +224,7 @@ class SamplePosterior(Contract):
                             for fcs in (("smc", "importance") if fc else ("smc",)):
                                 out.append({"sampler": sampler, "ck": ck, "rng": rng, "file_flow": ff, "file_ckpt": ff and fc and fcs == "smc", "file_config": fc, "save_config": 1,
                                             "file_config_sampler": fcs})
+        out += [{"sampler": sm, "ck": "none", "rng": 0, "file_flow": 0, "file_ckpt": 0, "file_config": 0, "save_config": 1, "xp_out": 1} for sm in ("importance", "smc", "emcee")]
         out += [{"sampler": "smc", "ck": "explicit", "rng": 0, "file_flow": 0, "file_ckpt": 0, "file_config": 1, "save_config": 0},
                 {"sampler": "smc", "ck": "explicit", "rng": 0, "file_flow": 1, "file_ckpt": 1, "file_config": 1, "save_config": 0, "file_config_sampler": "smc"}]
         return out
@@ -254,6 +258,9 @@ class SamplePosterior(Contract):
         if shape["rng"]:
             g["rng"] = Sym(z3.Const("user_rng", Misc), "rng")
             kw["rng"] = g["rng"]
+        if shape.get("xp_out"):
+            g["xp_out"] = Sym(z3.Const("output_xp", Misc), "ns")
+            kw["xp"] = g["xp_out"]
         kw["n_steps"] = IV(z3.Int("n_steps")) if shape["sampler"] not in ("importance", "emcee") else None
         kw = {k: v for k, v in kw.items() if v is not None}
         g["kw"] = kw
@@ -326,6 +333,14 @@ class SamplePosterior(Contract):
         else:
             p.prove(z3.BoolVal("checkpoint_file_path" not in run_kw), f"{q}:C12:no checkpoint keywords without a checkpoint path {tag}")
         p.prove(z3.BoolVal(a.f.get("_sampler") is s), f"{q}:C17:the instance keeps the sampler whose evaluation counter it reports {tag}")
+        res = p.ghost.get("sampler_result")
+        if res is not None and isinstance(r, Obj):
+            if "xp_out" in g:
+                p.prove(z3.BoolVal(r.f.get("xp") is g["xp_out"]), f"{q}:C15:the output-namespace option is honoured {tag}")
+                p.prove(z3.BoolVal(r.f.get("x") is res.f["x"] or r.f.get("__converted_from") is res), f"{q}:C15:the returned samples are the sampler's result converted {tag}")
+            for k in ("log_evidence", "log_evidence_error"):
+                p.prove(I.equal(r.f.get(k, NONE), res.f[k]), f"{q}:C15:C08:{k} of the sampler's result is carried through the output conversion {tag}")
+            p.prove(z3.BoolVal(r.f.get("parameters") is a.f["parameters"]), f"{q}:returned samples carry the instance's parameter names {tag}")
 
 
 class Fit(Contract):
